@@ -165,6 +165,9 @@ fn battery_spec(fuel: u64) -> crate::host::RunSpec {
         clock_start: 0,
         random_seed: 1,
         withhold_imports: false,
+        linked_promises: false,
+        host_activity_pm: 0,
+        internal_sources: Default::default(),
     }
 }
 
